@@ -111,6 +111,7 @@ def split_top(s, sep=',', angle=False):
 PP_DEFINED = {'__linux__', '__GNUC__', '__unix__', 'OSMIUM_WITH_LZ4', '__cplusplus', 'OSMIUM_POOL_THREADS', '__x86_64__'}
 PP_UNDEFINED = {'_WIN32', '_MSC_VER', 'NDEBUG', 'OSMIUM_USE_SLOW_MERCATOR_PROJECTION', '__clang__', '__MINGW32__', '_WIN64', '__APPLE__',
                 'OSMIUM_WITH_TIMER', 'OSMIUM_DEBUG_RING_NO', 'OSMIUM_ITEM_STORAGE_GC_DEBUG', '__FreeBSD__', 'OSMIUM_DEFINE_EXPORT', 'OSMIUM_WITH_DEBUG_OUTPUT'}
+PP_VALUES = {'ZLIB_VERNUM': '0x12d0'}   # macros with a value: the installed zlib (1.2.13); every zlib since 1.2.4 (2010) has gzoffset
 pp_unknown = set()
 
 
@@ -127,7 +128,7 @@ def preprocess(src):
     def ev(expr):
         e = re.sub(r'defined\s*\(\s*(\w+)\s*\)|defined\s+(\w+)', lambda m: ' True ' if is_def(m.group(1) or m.group(2)) else ' False ', expr)
         e = e.replace('&&', ' and ').replace('||', ' or ').replace('!', ' not ')
-        e = re.sub(r'\b(?!True|False|and|or|not)([A-Za-z_]\w*)\b', lambda m: '1' if is_def(m.group(1)) else '0', e)
+        e = re.sub(r'\b(?!True|False|and|or|not)([A-Za-z_]\w*)\b', lambda m: PP_VALUES[m.group(1)] if m.group(1) in PP_VALUES else ('1' if is_def(m.group(1)) else '0'), e)
         try:
             return bool(eval(e, {'__builtins__': {}}, {}))
         except Exception:
